@@ -29,6 +29,7 @@ def declare(rep):
     rep.rule("C15.population-renumbering", "after the parallel division loop every change of the population is followed by a renumbering of the whole list from position 0 (several divisions in one pass must leave place == local id for every cell)", floor=2)
     rep.rule("C15.remove-index-sorted", "indices collected by the threads of a parallel loop are sorted before remove_index compacts the shared list (thread-completion order must not matter)", floor=1)
     rep.rule("C15.static-local", "no function executed inside a parallel region (region body and callee closure) declares a mutable function-local static: such an object is one buffer shared by all threads", floor=8)
+    rep.rule("C15.thread-id-dispatch", "no work inside a parallel region is assigned to a thread by comparing omp_get_thread_num() with a constant other than 0 (without a num_threads clause): with fewer threads in the team that work is silently not done, so the result depends on the thread count", floor=8)
     rep.rule("C15.atomic-accumulator", "each component update of vec3::translate is an OpenMP atomic update in the program as built", floor=6)
 
 
@@ -44,6 +45,29 @@ def run(rep, prog, tier):
         # units built without -fopenmp whose own '#pragma omp' lines are ignored by the product build: the region rules are also
         # decided on what those pragmas state (the same source parsed with -fopenmp), for the functions of those units only
         _run(rep, lat, tier, set(prog.latent_units))
+
+
+def thread_id_dispatch(prog, fn, reg):
+    """conditions `omp_get_thread_num() == K` (K >= 1; also through a local that holds the thread number) in the region body"""
+    from ..model import expand, is_call
+    body = reg.get("body") if isinstance(reg.get("body"), dict) else (reg["node"].get("body") if isinstance(reg["node"].get("body"), dict) else None)
+    if body is None:
+        return []
+    if any(c.get("kind") == "num_threads" for c in (reg["node"].get("clauses") or [])) if isinstance(reg["node"], dict) and "omp" in reg["node"] else False:
+        return []
+    rfn = reg.get("fn") or fn
+    out = []
+    for n in walk(body):
+        if n.get("k") != "BinaryOperator" or n.get("op") not in ("==",):
+            continue
+        e = expand(rfn, n)
+        l, r = strip(e["c"][0]), strip(e["c"][1])
+        for a, b in ((l, r), (r, l)):
+            while a.get("k") in ("ParenExpr", "ImplicitCastExpr") and a.get("c"):
+                a = strip(a["c"][0])
+            if is_call(a) and a.get("callee") == "omp_get_thread_num" and b.get("k") == "IntegerLiteral" and int(b.get("v", "0")) >= 1:
+                out.append((n, b.get("v")))
+    return out
 
 
 def static_locals_on_cone(prog, reg, fn=None):
@@ -110,6 +134,13 @@ def _run(rep, prog, tier, only_units):
                               % (g_["qn"], v_.get("name"), v_.get("t"), reg["kind"], prog.loc(fn, node)))
             if not st:
                 rep.ok("C15.static-local", prog, fn, node, "%s region: no mutable function-local static in the region body or its callee closure" % reg["kind"])
+            # (1c) work dispatched by thread id
+            tid = thread_id_dispatch(prog, fn, reg)
+            for cnode, kk in tid:
+                rep.violation("C15.thread-id-dispatch", prog, reg.get("fn", fn), cnode, "work reserved for thread %s" % kk,
+                              "inside the %s region at %s the statement guarded by '%s' runs only on the thread whose number is %s: when the team has %s thread(s) or fewer (nb_threads = %s, a single-core machine, nested parallelism) nobody executes it - e.g. one of the two output files is never written - and the outcome depends on the number of threads" % (reg["kind"], prog.loc(fn, node), short(cnode, 60), kk, kk, kk))
+            if not tid:
+                rep.ok("C15.thread-id-dispatch", prog, fn, node, "%s region: no statement is reserved for a thread number other than 0" % reg["kind"])
             # (4) shared mutation
             recs = RA.analyse(fn, reg)
             rfn = reg.get("fn", fn)
